@@ -108,7 +108,7 @@ theorem get_tariff_spec {K : Type} [LT K] [DecidableLT K] (l : List (Schedule K)
     obtain ⟨p, hp, hl, hpx, hmax⟩ :=
       lookup_spec sch.tariffs (strict_of_strictTimesB _ hstrict) p0 (by rw [hts]; rfl) h0 _ hx
     refine ⟨sch, hmem, hsel, p, hp, ?_, hpx, hmax⟩
-    unfold getTariff
+    unfold getTariff getTariffH
     rw [hsel]
     exact hl
 
